@@ -1125,6 +1125,12 @@ class SpectrumResult:
 
     def __getattr__(self, name: str) -> Any:
         """Lazy computation and caching of spectral properties."""
+        # Private/dunder lookups (e.g. copy/pickle probing a blank instance) must
+        # not recurse through self._cache / self._data.
+        if name.startswith("_"):
+            raise AttributeError(
+                f"'{type(self).__name__}' object has no attribute '{name}'"
+            )
         if name in self._cache:
             return self._cache[name]
 
